@@ -46,6 +46,7 @@ from .rng import stream
 
 DELIVERY: contextvars.ContextVar[Any] = contextvars.ContextVar("SIM_DELIVERY", default=None)
 SENDING: contextvars.ContextVar[Any] = contextvars.ContextVar("SIM_SENDING", default=None)
+SESSION: contextvars.ContextVar[Any] = contextvars.ContextVar("SIM_SESSION", default=0)     # one number per Receiver.listen() call
 
 TASKS_MODULE = "simtasks"
 
@@ -69,6 +70,13 @@ class SimFault(ConnectionError):
     """Injected transport / storage / hook fault."""
 
 
+class SimFalsy(Exception):
+    """An exception object whose truth value is False (an error aggregate that defines __len__ / __bool__ and is raised empty)."""
+
+    def __bool__(self) -> bool:
+        return False
+
+
 class SimTimeout(TimeoutError):
     """A timeout raised by the task body itself (a client library's own timeout), not by the timeout label."""
 
@@ -86,6 +94,7 @@ EXC = {
     "TimeoutError": TimeoutError,
     "SimTimeout": SimTimeout,
     "CancelledError": asyncio.CancelledError,
+    "SimFalsy": SimFalsy,
 }
 
 
@@ -297,7 +306,7 @@ class SimBroker(AsyncBroker):
             if type(d.obj) is bytes:
                 # a shared (interned) bytes object: several deliveries may be the very same object; they are handed to callback()
                 # in the order in which they were taken
-                w.shared_obj.setdefault((self.worker, self.gen, id(d.obj)), []).append(d)
+                w.shared_obj.setdefault((self.worker, self.gen, SESSION.get(), id(d.obj)), []).append(d)
             else:
                 w.by_obj[id(d.obj)] = d
             w.rec("take", d.id, k=d.k, w=self.worker, ackable=ackable)
@@ -481,10 +490,18 @@ class RecReceiver(Receiver):
 
     world: "World"
 
+    async def listen(self, finish_event: Any) -> None:  # type: ignore[override]
+        # observation only: number this listen() call, so that deliveries handed over as shared (interned) objects can be told
+        # apart between the receiver sessions that run_receiver_task starts one after the other
+        w = self.world
+        w.extra["sessions"] = w.extra.get("sessions", 0) + 1
+        SESSION.set(w.extra["sessions"])
+        await super().listen(finish_event)
+
     async def callback(self, message: Any, raise_err: bool = False) -> None:  # type: ignore[override]
         w = self.world
         dl = w.by_obj.get(id(message))
-        skey = (getattr(self.broker, "worker", None), getattr(self.broker, "gen", 0), id(message))
+        skey = (getattr(self.broker, "worker", None), getattr(self.broker, "gen", 0), SESSION.get(), id(message))
         if dl is None and w.shared_obj.get(skey):
             dl = w.shared_obj[skey].pop(0)
         d = dl.id if dl is not None else None
